@@ -20,6 +20,7 @@ mod store;
 #[path = "/repo/src/tlv.rs"]
 mod tlv;
 
+mod e2e;
 mod fuzzdrv;
 mod gen;
 mod monitors;
@@ -85,7 +86,14 @@ fn main() {
             let seed = runner::seed_from_env();
             let code = match args[2].as_str() {
                 p @ ("C01" | "C02" | "C03" | "C04" | "C05" | "C07" | "C08" | "C11") => props::worldprops::run_world_check(props::worldprops::spec(p).unwrap(), tier, seed),
+                "C06" => props::c06::run(tier, seed),
                 "C09" => props::worldprops::run_c09(tier, seed),
+                "C10" => props::c10::run(tier, seed),
+                "C13" => props::c13::run(tier, seed),
+                "C14" => props::c14::run(tier, seed),
+                "C15" => props::provider::run_c15(tier, seed),
+                "C20" => props::c20::run(tier, seed),
+                "C16" => props::provider::run_c16(tier, seed),
                 "C12" => props::c12::run(tier, seed),
                 "C18" => props::c18::run(tier, seed),
                 _ => usage(),
@@ -131,6 +139,8 @@ fn main() {
             let engine = v["engine"].as_str().unwrap_or("").to_string();
             let case = v["case"].clone();
             let rep = match prop.as_str() {
+                "C13" => props::c13::replay(&engine, case),
+                "C14" => props::c14::replay(&engine, case),
                 _ if engine == "world" => {
                     let p: &'static str = Box::leak(prop.clone().into_boxed_str());
                     props::worldprops::replay_world(p, case)
